@@ -35,6 +35,10 @@ func identicallyZero(def M) bool {
 
 func close9(a, b float64) bool { return math.Abs(a-b) <= 1e-9*(1+math.Abs(a)+math.Abs(b)) }
 
+// closeS compares two quantities that carry the unit of the data: the tolerance is relative to the magnitude of the
+// data involved (no absolute floor - the values may be of magnitude 1e-12).
+func closeS(a, b, scale float64) bool { return math.Abs(a-b) <= 1e-9*scale }
+
 func judgeC19(c ReqCase) *Fail {
 	body := []byte(c.Req)
 	m := parseReqM(body)
@@ -124,7 +128,7 @@ func judgeC19(c ReqCase) *Fail {
 		scale[cv.Id], rng[cv.Id] = s, [2]float64{lo, hi}
 		sm := asM(scal[cv.Id])
 		vr := asM(sm["valuesRange"])
-		if sm == nil || !close9(num(sm["scale"]), s) || !close9(num(vr["min"]), lo) || !close9(num(vr["max"]), hi) {
+		if sm == nil || !close9(num(sm["scale"]), s) || !closeS(num(vr["min"]), lo, math.Abs(lo)+math.Abs(hi)) || !closeS(num(vr["max"]), hi, math.Abs(lo)+math.Abs(hi)) {
 			return failf("criteria-scaling", "criterion %s: reported scaling %v, the range of the received state is [%v,%v] (scale %v)", cv.Id, sm, lo, hi, s)
 		}
 	}
@@ -196,7 +200,7 @@ func judgeC19(c ReqCase) *Fail {
 				}
 				B := boundFn(ap, rng[cv.Id][0], rng[cv.Id][1])
 				want := B(old + (rng[cv.Id][1]-rng[cv.Id][0])*diffs[a.Id][cv.Id])
-				if !close9(nw, want) {
+				if !closeS(nw, want, math.Abs(old)+math.Abs(rng[cv.Id][0])+math.Abs(rng[cv.Id][1])) {
 					return failf("inline-formula", "(%s,%s): %v became %v, old + range x mapped difference (bounded) = %v", a.Id, cv.Id, old, nw, want)
 				}
 				if applied[a.Id][cv.Id] != nw-old {
@@ -278,7 +282,7 @@ func judgeC19(c ReqCase) *Fail {
 			}
 			want := B(lo + half + half*mean)
 			got, has := na.Vals[a.Id]
-			if !has || math.Abs(got-want) > 1e-9*(1+math.Abs(want)+math.Abs(half)) {
+			if !has || !closeS(got, want, math.Abs(lo)+math.Abs(hi)) {
 				return failf("new-criterion-formula", "alternative %s: new criterion value %v (present=%v), mid-range + half-range x importance-weighted mean (bounded) = %v", alt.Id, got, has, want)
 			}
 			if rv, ok := a.Values[alt.Id]; !ok || rv != got {
